@@ -19,6 +19,7 @@ from .values import (
     JSFunction,
     JSRegExp,
     JSBoundMethod,
+    array_index,
     js_pow,
     to_integer,
     to_string,
@@ -211,12 +212,9 @@ class Context:
             prop = to_string(args[0]) if args else ""
             if isinstance(this_val, JSArray):
                 # For arrays, check both properties and array indices
-                try:
-                    idx = int(prop)
-                    if 0 <= idx < len(this_val._elements):
-                        return True
-                except (ValueError, TypeError):
-                    pass
+                idx = array_index(prop)
+                if idx is not None and idx < len(this_val._elements):
+                    return True
                 return (
                     this_val.has(prop)
                     or prop in this_val._getters
